@@ -3,6 +3,7 @@
    off the CURRENT ev.c (Gen/Ev.lean).  A `by decide` on a configuration bit is a proof obligation on the source: it
    fails when the source does not have the corresponding test. -/
 import JanetModel.Ev.Lemmas
+import JanetModel.Ev.QueueLemmas
 import JanetModel.Ev.Current
 namespace JanetModel.Props.C06
 open JanetModel.Ev
@@ -79,6 +80,31 @@ theorem nothing_twice (limits : Nat → Nat) (as : List Action) (c x : Nat) :
 example : let w := run Cfg.good (World.start fun _ => 0)
             [.timers, .runTask, .go 1, .take 0, .runTask, .give 0 7, .finish false, .runTask, .finish false]
           w.ghost.pushed = [(0, 7)] ∧ w.ghost.handed = [(0, 7)] ∧ w.ghost.received = [(0, 7)] := by decide
+
+/-! ## the janet_q_* ring buffers refine lists -/
+
+/-- **queue_refines_list**: for a well-formed JanetQueue (model `RingQ`, capacity bound `JANET_MAX_Q_CAPACITY` from the
+    current source), with `toList` the abstract content (head first):
+    push appends, push_head prepends, pop removes the head (and fails exactly on the empty list), janet_q_maybe_resize -
+    including the memmove of a wrapped first segment - changes nothing, every operation keeps the representation
+    invariant, and the index walk `for (i = head; i != tail; i = i + 1 < capacity ? i + 1 : 0)` of
+    janet_channel_has_reader / the mark functions visits exactly `toList`. -/
+theorem queue_refines_list {α : Type} (q : RingQ α) (h : q.WF) :
+    (∀ x q', q.push maxQCapacity x = some q' → q'.toList = q.toList ++ [x] ∧ q'.WF) ∧
+    (∀ x q', q.pushHead maxQCapacity x = some q' → q'.toList = x :: q.toList ∧ q'.WF) ∧
+    (q.pop = none ↔ q.toList = []) ∧
+    (∀ x q', q.pop = some (x, q') → q.toList = x :: q'.toList ∧ q'.WF) ∧
+    (∀ q', q.maybeResize maxQCapacity = some q' → q'.toList = q.toList ∧ q'.WF) ∧
+    q.walk = q.toList :=
+  ⟨fun x q' hp => RingQ.push_spec _ q h x q' hp, fun x q' hp => RingQ.pushHead_spec _ q h x q' hp,
+   RingQ.pop_none q h, fun x q' hp => RingQ.pop_some q h x q' hp,
+   fun q' hr => ⟨(RingQ.maybeResize_spec _ q h q' hr).1, (RingQ.maybeResize_spec _ q h q' hr).2.1⟩,
+   RingQ.walk_eq_toList q h⟩
+
+/-- non-vacuity: the initial queue is well-formed and empty; a wrapped queue that is full is moved correctly -/
+example : (RingQ.init (0 : Nat)).WF ∧ (RingQ.init (0 : Nat)).toList = [] := ⟨Or.inl ⟨rfl, rfl, rfl⟩, rfl⟩
+example : let q : RingQ Nat := { data := fun i => i, head := 3, tail := 2, cap := 4 }
+          q.toList = [3, 0, 1] ∧ ((q.push 100 9).map RingQ.toList) = some [3, 0, 1, 9] := by decide
 
 /-! ## the three defects of the pinned tree, as theorems about the model with the pinned configuration -/
 
